@@ -19,7 +19,7 @@ import norm_c12
 from ikinds import (Contracts, FnKinds, FunctionIndex, Lin, Rng, Top, strip, _subscript, _is_incdec, coverage, frames_key, elsewhere)
 
 GEO = featlib.repo_path("kernel/geometry/")
-FILES = GEO + r"(patch_|parti_|mesh_node|mesh_part\.hpp|intern/patch_index|intern/target_set_computer)|" + featlib.repo_path("kernel/adjacency/graph.hpp")
+FILES = GEO + r"(patch_|parti_|partition_set|mesh_node|mesh_part\.hpp|intern/patch_index|intern/target_set_computer)|" + featlib.repo_path("kernel/adjacency/graph.hpp")
 G = r"Adjacency::Graph$"
 
 
@@ -1663,6 +1663,295 @@ def rule_patch_part_deduct(w):
         ck.incomplete("E13.patch-part-siblings", "no patch mesh part construction (PatchMeshPartFactory + deduct_target_sets_*) found in RootMeshNode")
 
 
+# -------------------------------------------------------------------------------------------------
+# the patch mesh topology is the base topology re-indexed through the patch map - on every path
+# -------------------------------------------------------------------------------------------------
+
+def _through_locals(fk, n, depth=0):
+    """expression with never re-assigned (reference / value) locals replaced by their initialisers"""
+    n = strip(n)
+    while n is not None and depth < 5 and n.get("k") == "Ref" and n.get("dk") == "local" and not fk.mut.get(n.get("d")):
+        v0 = fk.locals.get(n.get("d"))
+        if v0 is None or v0.get("init") is None or v0.get("param"):
+            break
+        n = strip(v0["init"])
+        while n is not None and n.get("k") in ("Construct", "TempObj") and len(n.get("a", [])) == 1:
+            n = strip(n["a"][0])
+        depth += 1
+    return n
+
+
+def rule_patch_reindex(w):
+    ck = w.ck
+    R = "E7.patch-reindex"
+    fns = w.find(r"Geometry::PatchMeshFactory<.*>::fill_index_sets$")
+    if not fns:
+        ck.incomplete(R, "PatchMeshFactory::fill_index_sets not instantiated")
+    for fn in fns:
+        name = short(fn)
+        fk = w.fk(fn)
+        out = fn.params[0]["n"] if fn.params else None
+        maps = [n for n in w.norm.orig_nodes(fn) if n.get("k") in ("Call", "MCall") and re.search(r"Intern::PatchIndexMapping<.*>::apply$", n.get("callee") or "")]
+        if len(maps) != 1 or out is None:
+            why = elsewhere(fk, (out,), names=C12NAMES) if out else None
+            ck.incomplete(R, "%s: %d calls of Intern::PatchIndexMapping::apply%s" % (name, len(maps), ("; " + why) if why else ""))
+            continue
+        m = maps[0]
+        args = [render(_through_locals(fk, a)) for a in m.get("a", [])]
+        okargs = len(args) >= 3 and fk.okey(m["a"][0]) == out and re.search(r"_base_mesh\b.*index_set", args[1]) is not None and "_patch_part" not in args[1] \
+            and re.search(r"_patch_part\b.*target_set", args[2]) is not None and "_base_mesh" not in args[2]
+        ok, bad = norm_c12.ip_must_pass(fn, lambda x, tgt=m: x is tgt, w.findex)
+        # anything else that writes the output holder
+        other = []
+        for n in w.norm.orig_nodes(fn):
+            if n is m or n.get("k") not in ("Call", "MCall", "OpCall"):
+                continue
+            if n.get("k") == "MCall" and n.get("obj") is not None and fk.okey(n.get("obj")) == out and not n.get("cconst"):
+                other.append(n)
+            elif n.get("k") == "OpCall" and n.get("op") == "=" and n.get("a") and fk.okey(n["a"][0]) == out:
+                other.append(n)
+        problems = []
+        if not okargs:
+            problems.append("PatchIndexMapping::apply is called with (%s); the patch topology is (output holder, index sets of the BASE mesh, target sets of the PATCH part)" % ", ".join(args[:3]))
+        if not ok:
+            path = fn.cfg.path_to(bad[0], avoid=()) if bad and fn.cfg is not None else None
+            problems.append("a path through fill_index_sets reaches the exit without the re-indexing through the patch map (lines %s): the index sets handed out on that path are "
+                            "not the base topology restricted and renumbered by the patch part's target sets - local entity i of the patch mesh is then not base entity target[i] "
+                            "(e.g. a single patch whose cell list is not ascending)" % ([l for l in fn.cfg.block_lines(path) if l][-4:] if path else "?"))
+        for n in other:
+            problems.append("the output holder is also written by `%s` (line %s), i.e. with a topology that did not go through the patch map" % (render(n)[:60], n.get("l")))
+        ck.ob(R, name, not problems, "; ".join(problems) if problems else
+              "every path fills the index sets by PatchIndexMapping::apply(out, base index sets, patch target sets) and nothing else writes them", fn.file, m.get("l"))
+
+
+# -------------------------------------------------------------------------------------------------
+# Partition / PartitionSet: rank counts and element counts are different kinds
+# -------------------------------------------------------------------------------------------------
+
+def _accessor_kind(w, call):
+    """'Dom' / 'Img' of the elements-at-rank graph `_patches` that a Partition accessor returns, or None"""
+    callee = w.findex.lookup(call)
+    if callee is None or callee.body is None or not re.search(r"Geometry::Partition$", callee.cls or ""):
+        return None, None
+    stmts = [x for x in callee.body.get("s", []) if not FnKinds._is_noise(x)]
+    if len(stmts) != 1 or stmts[0].get("k") != "Return":
+        return None, callee
+    e = strip(stmts[0].get("e"))
+    for _ in range(3):
+        if e is not None and e.get("k") in ("Construct", "TempObj") and len(e.get("a", [])) == 1:
+            e = strip(e["a"][0])
+    if e is not None and e.get("k") == "MCall" and not e.get("a") and strip(e.get("obj")).get("k") == "Member" and strip(e["obj"]).get("n") == "_patches":
+        return {"get_num_nodes_domain": "Dom", "get_num_nodes_image": "Img"}.get(e.get("n")), callee
+    return None, callee
+
+
+def rule_partition_kinds(w):
+    ck = w.ck
+    R = "E2.partition-kinds"
+    # (1) name roles of the accessors of Partition (its graph is the elements-at-rank graph: domain = ranks/patches, image = elements)
+    roles = {"get_num_patches": "Dom", "get_num_elements": "Img"}
+    for fn in w.fns:
+        if re.search(r"Geometry::Partition$", fn.cls or "") and fn.name in roles and not fn.params:
+            k, _ = _accessor_kind(w, {"k": "MCall", "callee": fn.qn, "cfull": fn.full, "pn": [], "cconst": True, "a": []})
+            if k is None:
+                ck.incomplete(R, "Partition::%s(): not of the form `return _patches.get_num_nodes_*()`" % fn.name)
+            else:
+                ck.ob(R, "Partition::%s()" % fn.name, k == roles[fn.name], "returns %s(_patches) of the elements-at-rank graph; the name says %s" % (
+                    k, "number of ranks/patches = domain nodes" if roles[fn.name] == "Dom" else "number of elements = image nodes"), fn.file, fn.line)
+    # (2) the rank-count parameter of find_partition is compared with a rank-count accessor
+    fns = [fn for fn in w.fns if re.search(r"Geometry::PartitionSet$", fn.cls or "") and fn.name == "find_partition" and fn.param("size") and fn.param("names")]
+    if not fns:
+        ck.incomplete(R, "PartitionSet::find_partition(size, names, prio) not in the fact base")
+    for fn in fns:
+        sd = fn.param("size")["d"]
+        fkp = w.fk(fn)
+        cmps = []
+        for n in fn.nodes():
+            if n.get("k") == "Bin" and n.get("op") in ("==", "!=", "<", ">", "<=", ">="):
+                sides = [strip(n["lhs"]), strip(n["rhs"])]
+                for a, b in (sides, sides[::-1]):
+                    if any(x.get("k") == "Ref" and x.get("d") == sd for x in walk(a)) and not any(x.get("k") == "Ref" and x.get("d") == sd for x in walk(b)):
+                        calls = [x for x in walk(b) if x.get("k") == "MCall"]
+                        for y in walk(b):
+                            if y.get("k") == "Ref" and y.get("dk") == "local":
+                                r0 = _through_locals(fkp, y)
+                                if r0 is not y and r0 is not None:
+                                    calls += [x for x in walk(r0) if x.get("k") == "MCall"]
+                        cmps.append((n, calls))
+        found = 0
+        for n, calls in cmps:
+            for c in calls:
+                k, callee = _accessor_kind(w, c)
+                if callee is None:
+                    continue
+                found += 1
+                key = "PartitionSet::find_partition(size,names,prio)/size vs %s()" % c.get("n")
+                if k is None:
+                    ck.incomplete(R, "%s: the accessor is not of the form `return _patches.get_num_nodes_*()`" % key)
+                    continue
+                ck.ob(R, key, k == "Dom", ("the requested number of ranks is compared with %s() = Dom(_patches), the number of patches of the candidate" % c.get("n")) if k == "Dom" else
+                      "the parameter `size` is the required number of RANKS (documentation of find_partition) but it is compared with %s() = Img(_patches), the number of ELEMENTS of the "
+                      "candidate: for a request of p ranks a partition with p cells and a different number of patches is handed out, every other request fails" % c.get("n"), fn.file, n.get("l"))
+        if not found:
+            ck.incomplete(R, "PartitionSet::find_partition: no comparison of `size` with an accessor of the candidate partition found")
+
+
+# -------------------------------------------------------------------------------------------------
+# unsigned "infinity" sentinels: max() + 1 wraps to 0
+# -------------------------------------------------------------------------------------------------
+
+def _is_limits_max(n):
+    return n is not None and any(x.get("k") in ("Call", "MCall") and re.search(r"numeric_limits<.*>::max$", x.get("callee") or "") for x in walk(n))
+
+
+def rule_sentinel_overflow(w):
+    """arrays of the partitioner's distance computation that are filled with numeric_limits<Index>::max() as 'not reached': every `A[x] + c` must be
+    control dependent on a test that A[x] is not the sentinel (max + 1 == 0 makes an unreached cell the nearest one)"""
+    ck = w.ck
+    R = "E2.sentinel-overflow"
+    fns = w.find(r"Geometry::Intern::parti_iterative_distance<")
+    if not fns:
+        ck.incomplete(R, "Intern::parti_iterative_distance not instantiated")
+    obs = {}
+    for fn in fns:
+        name = re.sub(r"<.*$", "", short(fn).split("(")[0])
+        sent = {}
+        for n in fn.nodes():
+            if n.get("k") == "Var" and n.get("init") is not None:
+                i0 = strip(n["init"])
+                if i0.get("k") in ("Construct", "TempObj") and "vector" in (i0.get("callee") or "") and len(i0.get("a", [])) >= 2 and _is_limits_max(i0["a"][1]):
+                    sent[n["d"]] = n["n"]
+        if not sent:
+            ck.incomplete(R, "%s: no array filled with numeric_limits<>::max() found" % name)
+            continue
+        par = {}
+        st = [fn.body]
+        while st:
+            x = st.pop()
+            for c in children(x):
+                par[id(c)] = x
+                st.append(c)
+
+        def elem_of(n):
+            sub = _subscript(n) if n is not None and n.get("k") != "Cast" else None
+            if sub is not None and sub[0].get("k") == "Ref" and sub[0].get("d") in sent:
+                return render(strip(n))
+            return None
+
+        def tests_not_sentinel(cond, etext, positive=True):
+            c = strip(cond)
+            if c is None:
+                return False
+            if c.get("k") == "Un" and c.get("op") == "!":
+                return tests_not_sentinel(c["e"], etext, not positive)
+            if c.get("k") == "Bin" and c.get("op") == "&&" and positive:
+                return tests_not_sentinel(c["lhs"], etext, True) or tests_not_sentinel(c["rhs"], etext, True)
+            if c.get("k") == "Bin" and c.get("op") == "||" and not positive:
+                return tests_not_sentinel(c["lhs"], etext, False) or tests_not_sentinel(c["rhs"], etext, False)
+            if c.get("k") == "Bin" and c.get("op") in ("!=", "==", "<", ">="):
+                l, r = strip(c["lhs"]), strip(c["rhs"])
+                for a, b in ((l, r), (r, l)):
+                    if render(a) == etext and _is_limits_max(b):
+                        op = c["op"] if positive else {"!=": "==", "==": "!=", "<": ">=", ">=": "<"}[c["op"]]
+                        return op in ("!=", "<") and (a is l or op == "!=")
+            return False
+        for n in fn.nodes():
+            if n.get("k") not in ("Bin", "Assign") or n.get("op") not in ("+", "+="):
+                continue
+            a, b = strip(n["lhs"]), strip(n["rhs"])
+            et = elem_of(a) or (elem_of(b) if n.get("k") == "Bin" else None)
+            if et is None:
+                continue
+            other = b if elem_of(a) else a
+            if other.get("k") not in ("Int",) and not (other.get("k") in ("Construct", "TempObj", "Cast")):
+                continue
+            guarded = False
+            cur = n
+            while id(cur) in par and not guarded:
+                p_ = par[id(cur)]
+                if p_.get("k") == "If" and cur is p_.get("then") and tests_not_sentinel(p_.get("c"), et, True):
+                    guarded = True
+                if p_.get("k") == "If" and cur is p_.get("else") and tests_not_sentinel(p_.get("c"), et, False):
+                    guarded = True
+                if p_.get("k") == "Block":
+                    for s0 in p_.get("s", []):
+                        if s0 is cur:
+                            break
+                        if s0.get("k") == "If" and s0.get("else") is None and norm_c12.always_leaves(s0.get("then")) and tests_not_sentinel(s0.get("c"), et, False):
+                            guarded = True
+                cur = p_
+            key = "%s/%s + %s" % (name, et, render(other))
+            obs.setdefault(key, []).append((guarded, ("`%s` is only evaluated when %s is not the sentinel" % (render(n)[:50], et)) if guarded else
+                                            "`%s`: %s may still be numeric_limits<>::max() ('not reached': the array is filled with it and the node is taken from the queue whatever "
+                                            "its distance), and max() + 1 wraps to 0 - the unreached neighbours then look NEAREST to this centre (a mesh whose cells are not all "
+                                            "facet-connected: whole components are attached to the wrong centre, other patches stay empty)" % (render(n)[:50], et), fn.file, n.get("l")))
+    for key, lst in sorted(obs.items()):
+        bad = [x for x in lst if not x[0]]
+        pick = bad[0] if bad else lst[0]
+        ck.ob(R, key, not bad, pick[1], pick[2], pick[3])
+    if fns and not obs:
+        ck.incomplete(R, "parti_iterative_distance: no increment of a sentinel-filled array element found")
+
+
+# -------------------------------------------------------------------------------------------------
+# a patch registered under a key that may already exist
+# -------------------------------------------------------------------------------------------------
+
+def rule_patch_key_fresh(w):
+    """add_patch inserts with a non-replacing map insertion and returns the entry found under the key: a caller that goes on with the returned pointer as
+    'the part just built' needs the key to be absent (erase / not-found check before), otherwise the SECOND registration under a key silently keeps the first part"""
+    ck = w.ck
+    R = "E7.patch-key-fresh"
+    n_inst = 0
+    for fn in w.find(r"Geometry::RootMeshNode<.*>::extract_patch$"):
+        fk = w.fk(fn)
+        name = re.sub(r"<.*?>::", "::", short(fn).split("(")[0], count=1) + "(" + ",".join(p["n"] for p in fn.params) + ")"
+        for n in w.norm.orig_nodes(fn):
+            if n.get("k") != "MCall" or n.get("n") != "add_patch" or not n.get("a"):
+                continue
+            callee = w.findex.lookup(n)
+            if callee is None:
+                continue
+            ins = [x for x in walk(callee.body) if x.get("k") == "MCall" and x.get("n") in ("emplace", "insert", "try_emplace") and (x.get("callee") or "").startswith("std::map")]
+            repl = [x for x in walk(callee.body) if (x.get("k") == "MCall" and x.get("n") in ("insert_or_assign", "erase")) or (x.get("k") == "OpCall" and x.get("op") == "[]" and (x.get("callee") or "").startswith("std::map"))]
+            checked = [x for x in walk(callee.body) if x.get("k") == "Member" and x.get("n") == "second" and any(y is not x and y.get("k") == "MCall" and y.get("n") in ("emplace", "insert", "try_emplace") for y in walk(x)) and
+                       not any(y.get("k") == "Member" and y.get("n") == "first" for y in walk(x))]
+            # is the returned pointer used by the caller?
+            par = _parent_of(fn, n)
+            used = par is not None and par.get("k") not in ("Block", "If", "For", "While", "ForRange", "Case", "Default")
+            if not ins or repl or not used:
+                continue
+            n_inst += 1
+            keyexpr = render(strip(n["a"][0]))
+            key = "%s/add_patch(%s)" % (name, keyexpr)
+            guards = [e for e in fk.events if e.kind == "call" and e.name in ("erase", "clear", "find", "count") and (e.obj or "").endswith("._patches") and e.node.get("l", 0) < n.get("l", 0)]
+            kc = fk.canon(n["a"][0])
+            erased = [e for e in guards if (e.name == "clear" or (e.name == "erase" and e.args_canon and e.args_canon[0] == kc)) and not any(f.kind == "if" for f in e.frames)]
+            if erased:
+                ck.ob(R, key, True, "the key %s is removed from _patches (%s(), line %s) before the new part is registered: the returned pointer is the part just built" % (
+                    keyexpr, erased[0].name, erased[0].node.get("l")), fn.file, n.get("l"))
+                continue
+            if checked or guards:
+                ck.incomplete(R, "%s: the insertion result / a lookup of the key is consulted (%s): not read by this rule" % (key, "callee checks .second" if checked else "caller calls %s()" % guards[0].name))
+                continue
+            ck.ob(R, key, False, "add_patch(%s, ...) registers the new patch mesh part with %s(), which does NOT replace an existing entry, and returns the entry found under the key; "
+                  "%s goes on with that pointer as the part it just built (deduction, patch mesh, halos). Called a second time for the same key on one node (key %s%s) it silently builds "
+                  "the FIRST patch again and the new part is destroyed" % (keyexpr, ins[0].get("n"), fn.name, keyexpr, " is the same for every call" if keyexpr.lstrip("-").isdigit() else ""), fn.file, n.get("l"))
+    if n_inst == 0:
+        ck.incomplete(R, "no use of the pointer returned by add_patch found in extract_patch")
+
+
+def _parent_of(fn, node):
+    st = [fn.body]
+    while st:
+        x = st.pop()
+        for c in children(x):
+            if c is node:
+                return x
+            st.append(c)
+    return None
+
+
 def run(tier):
     ck = Check("C12", tier)
     ck.rule("E1.member-binding", "the halo builders are wired to the right sets: PatchHaloBuild<Shape,codim> binds the patch part's target set of the face dimension and the "
@@ -1714,6 +2003,16 @@ def run(tier):
             "the <d,d> end of the template recursion is an empty function, so from_bottom<shape_dim> / from_top<0> leave the mesh part with the one target set it already had", 3)
     ck.rule("E13.patch-part-siblings", "sibling constructions of the same object agree: every RootMeshNode function that builds a patch mesh part with PatchMeshPartFactory "
             "(both extract_patch overloads, create_patch_meshpart) derives the lower-dimensional target sets by the same deduction on the index set holder of the node's own mesh", 1)
+    ck.rule("E7.patch-reindex", "PatchMeshFactory::fill_index_sets: on EVERY path the index sets of the patch mesh are produced by Intern::PatchIndexMapping::apply(out, index sets of "
+            "the base mesh, target sets of the patch part) and by nothing else (a shortcut that copies the base topology assumes the patch map is the identity, which the cell "
+            "target set - the caller's cell order - need not be)", 1)
+    ck.rule("E2.partition-kinds", "Partition wraps the elements-at-rank graph: get_num_patches() = Dom(_patches), get_num_elements() = Img(_patches); PartitionSet::find_partition "
+            "compares its documented rank-count parameter `size` with an accessor of kind Dom (rank count vs element count must not be confused; fact base extended to "
+            "kernel/geometry/partition_set.hpp, which the domain controls use to pick an explicitly given assignment)", 3)
+    ck.rule("E2.sentinel-overflow", "Intern::parti_iterative_distance: elements of an array filled with numeric_limits<Index>::max() ('not reached') are incremented only under a test "
+            "that they are not the sentinel (max() + 1 == 0: for meshes that are not facet-connected the unreached component looks nearest and patches stay empty)", 1)
+    ck.rule("E7.patch-key-fresh", "RootMeshNode::extract_patch continues with the pointer returned by add_patch(key, part) as the part it just built; add_patch inserts with a "
+            "non-replacing map insertion, so the key must be known to be absent (a second extraction under the same key returns the first patch)", 2)
     w = World(ck, tier)
     rule_member_binding(w)
     rule_kinds(w)
@@ -1730,6 +2029,10 @@ def run(tier):
     rule_nonnull_arg(w)
     rule_parti_two_pass(w)
     rule_patch_part_deduct(w)
+    rule_patch_reindex(w)
+    rule_partition_kinds(w)
+    rule_sentinel_overflow(w)
+    rule_patch_key_fresh(w)
     if w.norm.log:
         ck.note("read through normalisation (lib/norm_c12.py): " + "; ".join("%s: %s" % (k.replace("FEAT::Geometry::", "")[:70], ", ".join(sorted(set(v)))) for k, v in sorted(w.norm.log.items()))[:1500])
     ck.assume("TargetSet: entries are indices of the parent (base) mesh entities, one per part entity; IndexSet(i,j): i < get_num_entities(), value < get_index_bound(); "
